@@ -33,8 +33,15 @@ var Kinds = []string{
 	"nni", "nni_undo", "nni_double", "rename", "rename_auto", "rename_regexp", "shuffle_tips", "clone", "subtree",
 	"reinit", "clear_lengths", "clear_supports", "comments_set", "comments_clear", "comments_add",
 	"scale_lengths", "round_supports", "resolve_named", "graft_tip_on_edge", "reroot_first", "edge_comments_set",
-	"rename_swap", "setname_swap",
+	"rename_swap", "setname_swap", "nni_hold", "nni_release", "setname_fresh",
 }
+
+// keepsHeld: operations that leave the nodes and the adjacency of the tree as they are (they
+// reorder neighbours, change names, lengths, supports or comments): a rearrangement applied before
+// them can still be undone after them.
+var keepsHeld = map[string]bool{"rotate": true, "sort": true, "rotate_node": true, "comments_set": true, "comments_clear": true, "comments_add": true,
+	"edge_comments_set": true, "scale_lengths": true, "round_supports": true, "clear_supports": true, "clear_lengths": true, "reinit": true,
+	"nni_release": true, "rename": true, "rename_swap": true, "setname_swap": true, "shuffle_tips": true, "setname_fresh": true}
 
 // GenOp draws one operation. Arguments are drawn generously; the interpreter reduces the
 // selectors modulo what exists.
@@ -52,7 +59,7 @@ func GenOp(t *rapid.T, kinds []string) Op {
 		}
 	}
 	switch k {
-	case "reroot", "rotate_node", "subtree", "nni", "nni_undo", "nni_double", "comments_add", "graft_tip_on_edge":
+	case "reroot", "rotate_node", "subtree", "nni", "nni_undo", "nni_double", "comments_add", "graft_tip_on_edge", "nni_hold", "setname_fresh":
 		sel(1)
 	case "outgroup":
 		sel(rapid.IntRange(1, 5).Draw(t, "nout"))
@@ -99,6 +106,10 @@ func GenOp(t *rapid.T, kinds []string) Op {
 type State struct {
 	T     *tree.Tree
 	Fresh int // counter for fresh names
+	// Held: a rearrangement that was applied (nni_hold) and not yet undone (nni_release), and the
+	// tree object it belongs to; dropped by every operation that changes nodes or adjacency
+	Held   tree.Rearrangement
+	heldOn *tree.Tree
 }
 
 func (s *State) fresh(prefix string) string {
@@ -188,7 +199,30 @@ func Apply(s *State, op Op) (int, error) {
 	if t.Root().Nneigh() < 2 {
 		return Skipped, nil
 	}
+	if s.Held != nil && (s.heldOn != t || !keepsHeld[op.Kind]) {
+		s.Held, s.heldOn = nil, nil
+	}
 	switch op.Kind {
+	case "nni_hold":
+		// apply a rearrangement and keep the object: other edits follow before it is undone
+		l := nnis(t)
+		if len(l) == 0 {
+			return Skipped, nil
+		}
+		r := l[sel(0)%len(l)]
+		if err := r.Apply(); err != nil {
+			return Failed, err
+		}
+		s.Held, s.heldOn = r, t
+	case "nni_release":
+		if s.Held == nil {
+			return Skipped, nil
+		}
+		r := s.Held
+		s.Held, s.heldOn = nil, nil
+		if err := r.Undo(); err != nil {
+			return Failed, err
+		}
 	case "reroot":
 		in := innerNodes(t)
 		if len(in) == 0 {
@@ -398,6 +432,21 @@ func Apply(s *State, op Op) (int, error) {
 				}
 			}
 		}
+	case "setname_fresh":
+		// one tip gets a name the tree did not have ("sn1x", "sn2x" ...) through Node.SetName: nothing
+		// refreshes the tip index of an indexed tree
+		tips := t.Tips()
+		if len(tips) == 0 {
+			return Skipped, nil
+		}
+		names := sortedTips(t)
+		want := names[sel(0)%len(names)]
+		for _, tip := range tips {
+			if tip.Name() == want {
+				tip.SetName(s.fresh("sn"))
+				break
+			}
+		}
 	case "rename_auto":
 		id := 1
 		internals, tips := b(0), b(1)
@@ -531,6 +580,13 @@ func Apply(s *State, op Op) (int, error) {
 var NamePreserving = []string{"reroot", "midpoint", "unroot", "collapse_len", "collapse_sup", "collapse_depth", "resolve", "rotate", "sort",
 	"rotate_node", "nni", "nni_undo", "nni_double", "shuffle_tips", "clone", "reinit", "clear_supports", "scale_lengths", "round_supports",
 	"reroot_first", "comments_set", "comments_clear"}
+
+// WithTipEdits: the name-preserving operations plus edits that change which node carries which
+// name, or give a tip a name the tree did not have, without refreshing the tip index of an
+// indexed tree (two tips exchange their names through Rename or SetName, one tip is renamed "sn1x",
+// "sn2x" ... through SetName). GraftTipOnEdge is left out: on a branch without length it halves
+// the -1 that stands for "absent" and leaves lengths of -0.5 behind, which no check can judge.
+var WithTipEdits = append(append([]string{}, NamePreserving...), "rename_swap", "setname_swap", "setname_fresh", "setname_fresh")
 
 // GenHistory draws 1..max name-preserving operations.
 func GenHistory(t *rapid.T, max int) []Op {
